@@ -53,7 +53,7 @@ func init() {
 		"exhaustive relative to the listed universes (key alphabets, setup histories); closure is to fixpoint on the dedup state key, whose erasures (dead inline path bytes, free node16 lanes, node48 slot numbers) are guarded by raw variants and the poison differential",
 		"reference models (ideal map, oracle comparators) and the structural walker in verif_hooks.go are trusted",
 	}
-	for _, p := range []string{"C01", "C02", "C03", "C04", "C05", "C06", "C11", "C14", "C15", "C08", "C09"} {
+	for _, p := range []string{"C01", "C02", "C03", "C04", "C05", "C06", "C11", "C14", "C15", "C08", "C09", "C13"} {
 		props[p] = &propInfo{Level: "model_checking", Assume: e1Assume, Jobs: histJobs(p),
 			Rule: "explicit-state BFS to closure over Insert/Delete histories of real trees per universe; every new state gets the property's full query suite; a (state,query) evaluation is non-trivial when the reference answer is non-empty / the key is present; distinct because states are deduplicated by structural hash"}
 	}
@@ -327,6 +327,9 @@ func cmdRun(args []string) {
 func fillNote(f string) string {
 	if f == "" {
 		return ""
+	}
+	if f == "warm" {
+		return " [variant: read-only queries interleaved after every operation]"
 	}
 	return " [pre-state dead bytes overwritten with " + f + "]"
 }
